@@ -818,6 +818,33 @@ impl<F: Fam> Ctx<F> {
             run("&", (x & y).iter().map(|k| k.k()).collect(), mx.intersection(my).copied().collect());
             run("^", (x ^ y).iter().map(|k| k.k()).collect(), mx.symmetric_difference(my).copied().collect());
             run("-", (x - y).iter().map(|k| k.k()).collect(), mx.difference(my).copied().collect());
+            // the operator results are sets of their own (built with S::default()): they must answer
+            // lookups for exactly their elements and compare equal to an equal set, both ways
+            {
+                let u = x | y;
+                let i = x & y;
+                let want_u: BTreeSet<u32> = mx.union(my).copied().collect();
+                let want_i: BTreeSet<u32> = mx.intersection(my).copied().collect();
+                let mut rebuilt = Set::<F>::with_hasher(VH { mode: HMode::Good, seed: 0x5eed });
+                for k in &want_u {
+                    rebuilt.insert(F::K::mk(*k));
+                }
+                let probe_keys: Vec<u32> = want_u.iter().copied().chain([u32::MAX - 7]).collect();
+                for k in probe_keys {
+                    let q = F::K::mk(k);
+                    if u.contains(&q) != want_u.contains(&k) || u.get(&q).is_some() != want_u.contains(&k) {
+                        problems.push(format!("(a | b).contains({}) = {}, expected {} (order {})", k, u.contains(&q), want_u.contains(&k), order));
+                        break;
+                    }
+                    if i.contains(&q) != want_i.contains(&k) {
+                        problems.push(format!("(a & b).contains({}) = {}, expected {} (order {})", k, i.contains(&q), want_i.contains(&k), order));
+                        break;
+                    }
+                }
+                if u.len() != want_u.len() || !(u == rebuilt) || !(rebuilt == u) || !x.is_subset(&u) || !u.is_superset(y) {
+                    problems.push(format!("a | b (order {}): len {}, == rebuilt {} / {}, a.is_subset {} , is_superset(b) {}", order, u.len(), u == rebuilt, rebuilt == u, x.is_subset(&u), u.is_superset(y)));
+                }
+            }
             // cloned lazy iterators continue independently from any point, and size_hint brackets
             // what is still to come
             {
